@@ -55,8 +55,29 @@ func (c *Ctx) needOnSuccess(rule string, fn *ssa.Function, evs []Ev, formula fun
 		}
 		k++
 		success, bad := false, ""
+		type forwarder interface {
+			HoldsForwarded(uint8) bool
+			Carries(ssa.Value) bool
+		}
 		for i, st := range ex.at[r] {
-			if !isNilConst(ex.resolveAt(retVal(r, len(r.Results)-1), ex.atSel[r][i])) {
+			op := ex.resolveAt(retVal(r, len(r.Results)-1), ex.atSel[r][i])
+			if !isNilConst(op) {
+				// `return err` handing on the untested error of the latest call: it may well be nil, and
+				// then every *earlier* call must have been accounted for
+				h := ex.holdsVec(st)
+				forwards := false
+				for k, e := range evs {
+					if f, ok := e.(forwarder); ok && f.Carries(op) {
+						forwards = true
+						h[k] = f.HoldsForwarded(getSt(st, k))
+					}
+				}
+				if forwards {
+					success = true
+					if bad == "" && !formula(h) {
+						bad = "the returned error is that of the last call only; reached with " + ex.describe(st) + " via " + ex.findTrace(b.Index, st, r)
+					}
+				}
 				continue
 			}
 			success = true
